@@ -907,9 +907,16 @@ func (p *Parser) Parse() (Statement, error) {
 	}
 
 	// Field names used inside field definitions are resolved first: the
-	// type of a field defined through another field is known only then.
-	// An error found here is reported after the other clauses' errors
-	fieldsErr := selectStmt.ValidateFields(checkCtx)
+	// type of a field defined through another field is known only then
+	err = selectStmt.ValidateFields(checkCtx)
+	if err != nil {
+		// The fields are not usable: nothing else is resolved against them
+		selectStmt.Where = &WhereStmt{
+			Pos:  wherePos,
+			Expr: expr,
+		}
+		return selectStmt, err
+	}
 	for i, f := range selectStmt.Fields {
 		if i < len(selectStmt.FieldTypes) {
 			selectStmt.FieldTypes[i] = f.ReturnType()
@@ -972,5 +979,5 @@ func (p *Parser) Parse() (Statement, error) {
 	selectStmt.Limit = limitStmt
 	selectStmt.Order = orderStmt
 	selectStmt.GroupBy = groupByStmt
-	return selectStmt, fieldsErr
+	return selectStmt, nil
 }
